@@ -10,6 +10,7 @@ as well as model traces.  With `model_satisfies_spec` this gives `at_most_once_p
 `disabled_or_destructed_never_called` for every run of the model.
 -/
 import NV.C11.Props
+import NV.C11.Search
 
 namespace NV.C11
 
@@ -827,6 +828,41 @@ theorem at_most_once_per_tick (sc : Scripts) (cmds : List Cmd) (hk : Nat → Lis
 theorem disabled_or_destructed_never_called (sc : Scripts) (cmds : List Cmd) (hk : Nat → List Op := fun _ => []) :
     calledOnlyOn [] (events sc cmds hk) = true :=
   (judge_ok_implies_clauses _ (model_satisfies_spec sc cmds hk)).2
+
+/-- the oracle invariant survives every accepted trace -/
+theorem JI_foldl : ∀ (tr : List Ev) (j : JState) (seen off : List Nat), JI j seen off →
+    (tr.foldl judge1 j).bad = j.bad → ∃ seen' off', JI (tr.foldl judge1 j) seen' off' := by
+  intro tr
+  induction tr with
+  | nil => intro j seen off h _; exact ⟨seen, off, h⟩
+  | cons e r ih =>
+    intro j seen off h hacc
+    simp only [List.foldl_cons] at hacc ⊢
+    have hstep : (judge1 j e).bad = j.bad := by
+      rcases judge1_bad j e with h1 | ⟨v, h1⟩
+      · exact h1
+      · have := foldl_bad_length r (judge1 j e)
+        rw [hacc, h1] at this
+        simp at this
+        omega
+    obtain ⟨_, _, c⟩ := JI_step h e hstep
+    exact ih (judge1 j e) _ _ c (by rw [hacc, hstep])
+
+/-- **entries are unique per object** after every history of the model (append only when O_HEART_BEAT is off, removal
+    takes the entry out): no object is on heart_beats[] twice -/
+theorem hbs_nodup (sc : Scripts) (cmds : List Cmd) (hk : Nat → List Op := fun _ => []) :
+    (((runCmds sc { hooks := hk } cmds).1.hbs).map (·.ob)).Nodup := by
+  have hsim := sim_runCmds sc cmds { hooks := hk } {} (idle_init hk)
+  rw [hsim.1.hbs]
+  have hb : (((runCmds sc { hooks := hk } cmds).2).foldl judge1 {}).bad = ({} : JState).bad := hsim.2.2.2
+  obtain ⟨_, _, hji⟩ := JI_foldl _ {} [] [] JI_init hb
+  exact hji.nodup
+
+/-- **the direction of the search loop is not observable**: in every reachable state the C loop (from the back, with the
+    regenerated start value / condition / not-found test) finds the entry the model's front-to-back search finds -/
+theorem search_direction_unobservable (sc : Scripts) (cmds : List Cmd) (ob : Nat) (hk : Nat → List Op := fun _ => []) :
+    searchBack ob (runCmds sc { hooks := hk } cmds).1.hbs = idxOf ob (runCmds sc { hooks := hk } cmds).1.hbs :=
+  searchBack_eq_idxOf ob _ (hbs_nodup sc cmds hk)
 
 -- non-vacuity: the predicates reject what they should
 example : beatsOnce [] [.tickBegin, .beat 2, .beatEnd 2, .beat 2] = false := by decide
